@@ -30,6 +30,9 @@ ASSUMPTIONS = [
     'b64encode, "%g" % x, repr and ast.literal_eval of atoms are CPython behaviour, tabulated per case; '
     'ast.literal_eval of a composed text is modelled on the literal syntax tree (a parenthesised single expression is '
     'not a tuple), the tree is rendered and compared with the real text character by character',
+    'b64encode(b) is RFC 4648 text and b64decode(b64encode(b), validate=True) == b for the blobs inside the value '
+    '(theorem hypotheses b64_text_law C and b64_ok E C d v - per value, a law over all byte strings cannot be met by a '
+    'finite table; exercised on every case: is_b64_text of the tabulated encoding in check_case, node import of it)',
     'fmtstr is the default "%g"; unit is empty; generalConfig.lazy_number_validation = False',
     'enum member names carry no leading/trailing white space',
     'setParameterFromString is run on a real SecopClient object whose connect/request are recording stubs; the node '
